@@ -211,6 +211,11 @@ def _catalog(ctx):
                           L([C([R([{1}], [(0, 4)] * 66)], fmt=fmt)]), L([S({1: 6, 6: 1})]), L([S({2: 5, 1: 6})])])
     for ll in extra:
         cases.append({"id": 0, "family": "c16-budget-outer", "order": [1], "gdef": sc.GDEF_FULL, "ll": ll, "inputs": None})
+    # features that list lookup indices outside the lookup list (strictly increasing, with duplicates, unsorted): whoever
+    # tidies such a list must do it on a copy
+    simple = [L([S({1: 2})]), L([M({2: [1, 1]})]), L([S({2: 6, 6: 1})])]
+    for order in ([1, 9], [2, 3, 7, 200], [9], [3, 1, 9, 1], [1, 2, 3, 4]):
+        cases.append({"id": 0, "family": "c16-oor-feature", "order": order, "gdef": sc.GDEF_FULL, "ll": simple, "inputs": None})
     for i, c in enumerate(cases):
         c["id"] = i + 1
     if ctx.quick() and not ctx.replay_path:
